@@ -199,8 +199,8 @@ def r2_sites(prog, rep: Report, ss: Cls, rule: str = "C10.R2", floor: int = 3):
                   "__contains__ is not an existential scan (True inside the match test over all stored spans, False after it)",
                   scenario="a span related only to the last stored span is reported absent (scan ends early), or an empty set "
                            "contains everything")
-    # ---- constructor
-    f = prog.method(ss, "__init__")
+    # ---- constructor (with its private helpers inlined, sa/inline.py)
+    f = prog.method_view(ss, "__init__")
     rep.fn(f)
     flow = Flow(f.node)
     calls = _eq_calls(f)
@@ -214,7 +214,11 @@ def r2_sites(prog, rep: Report, ss: Cls, rule: str = "C10.R2", floor: int = 3):
         inner = _enclosing_for(c, 1)
         new_pair = None
         if loop is not None and len(a) == 4:
-            new_pair = _new_span_pair(loop, a[0], a[1], f)
+            # a local that merely names a component of the new span (end = ends[i]) stands for that component
+            a0 = flow.expand(a[0]) if isinstance(a[0], ast.Name) and not _is_loop_var(loop, a[0].id) else a[0]
+            a1 = flow.expand(a[1]) if isinstance(a[1], ast.Name) and not _is_loop_var(loop, a[1].id) else a[1]
+            new_pair = _new_span_pair(loop, a0, a1, f)
+            a = [a0, a1] + list(a[2:])
         role = f"init:branch{k}"
         rep.check(rule, f, role + ":roles", stored is not None and new_pair is not None,
                   f"eq_relation({new_pair}, {stored})",
@@ -268,6 +272,10 @@ def _enclosing_for(n, level: int):
                 return p
         p = getattr(p, "_parent", None)
     return None
+
+
+def _is_loop_var(loop: ast.For, name: str) -> bool:
+    return any(isinstance(x, ast.Name) and x.id == name for x in ast.walk(loop.target))
 
 
 def _new_span_pair(loop: ast.For, a0, a1, f: Func) -> Optional[str]:
@@ -326,8 +334,21 @@ def _keep_iff_no_match(loop, inner, call, args, f: Func) -> Tuple[bool, str]:
                 and st.value.func.attr == "append" and len(st.value.args) == 1:
             d = dotted(st.value.func.value)
             if d and len(d) == 2:
-                apps[d[1]] = src(st.value.args[0])
-    if apps.get("starts") != src(args[0]) or apps.get("ends") != src(args[1]):
+                v_ = st.value.args[0]
+                if isinstance(v_, ast.Name):
+                    from ..flow import Flow as _F
+                    fl_ = getattr(f, "_flow_cache", None) or _F(f.node)
+                    try:
+                        f._flow_cache = fl_
+                    except Exception:
+                        pass
+                    ex_ = fl_.expand(v_)
+                    if not isinstance(ex_, ast.Name) or True:
+                        apps[d[1] + ":expanded"] = src(ex_)
+                apps[d[1]] = src(v_)
+    def _same(role, want):
+        return apps.get(role) == want or apps.get(role + ":expanded") == want
+    if not _same("starts", src(args[0])) or not _same("ends", src(args[1])):
         return False, f"the kept span appended ({apps}) is not the probed (start, end) = ({src(args[0])}, {src(args[1])})"
     return True, ""
 
@@ -351,6 +372,11 @@ def r3_operators(prog, rep: Report, ss: Cls):
             continue
         flow = Flow(f.node)
         v = flow.expand(rets[0].value)
+        if isinstance(v, ast.Call) and isinstance(v.func, ast.Name):
+            # result_type = type(self); return result_type(...)
+            fx = flow.expand(v.func)
+            if fx is not v.func:
+                v = ast.copy_location(ast.Call(func=fx, args=v.args, keywords=v.keywords), v)
         if not (isinstance(v, ast.Call) and src(v.func) in ("type(self)", "SpanSet", "self.__class__") and len(v.args) == 1):
             rep.unrec("C10.R3", f, "operator", f"result is not type(self)(<one iterable>): {src(v)}")
             continue
@@ -360,7 +386,7 @@ def r3_operators(prog, rep: Report, ss: Cls):
             rep.unrec("C10.R3", f, "operator", "argument is not a single-generator comprehension")
             continue
         g = gen.generators[0]
-        it = g.iter
+        it = flow.expand(g.iter) if isinstance(g.iter, ast.Name) else g.iter      # candidates = itertools.chain(self, other)
         chain_ok = isinstance(it, ast.Call) and src(it.func) in ("itertools.chain", "chain") and \
             [src(a) for a in it.args] == [f.self_name, other]
         var = g.target.id if isinstance(g.target, ast.Name) else None
@@ -587,8 +613,10 @@ def r5_arrays(prog, rep: Report, ss: Cls):
     rep.rule("C10.R5", "parallel arrays starts/ends: only the constructor writes them; len is len(starts); iteration "
              "yields (start, end) pairs index-aligned", floor=3)
     writers = []
+    from ..util import constructor_only_helpers
+    ctor_parts = constructor_only_helpers(ss)      # private methods only the constructor calls are pieces of it
     for name, f in ss.methods.items():
-        if name == "__init__" or f.self_name is None:
+        if name == "__init__" or f.self_name is None or name in ctor_parts:
             continue
         for n in walk_own(f.node):
             tg = n.targets if isinstance(n, ast.Assign) else [n.target] if isinstance(n, (ast.AugAssign,)) else \
@@ -648,7 +676,7 @@ def r8_input_order(prog, rep: Report, ss):
              "(and subscript in parallel) are the parameters themselves or order-preserving views of them (list/tuple/zip/"
              "enumerate/slices/comprehensions); a set(), sorted() or reversed() on the way changes which of two related spans is "
              "kept", floor=2)
-    f = prog.method(ss, "__init__")
+    f = prog.method_view(ss, "__init__")
     rep.fn(f)
     flow = Flow(f.node)
     params = set(f.params[1:])
